@@ -1,19 +1,29 @@
 """C04 - no client input causes an internal error; HTTP/2 faults stay on their stream.
 
 Bounded exhaustive enumeration of client inputs, each executed against the real TCPServer / H11Protocol /
-H2Protocol / stream classes on the virtual-time asyncio loop and on instrumented trio.  Eight families:
+H2Protocol / stream classes on the virtual-time asyncio loop and on instrumented trio.  Ten families:
 
   short   every byte string of length <= 3 (quick) / 4 (thorough) over a 12 byte alphabet, as the first bytes of
           an HTTP/1 connection and directly after the HTTP/2 client preface, followed by EOF or by a valid
           request; on HTTP/2 also as the type / flags / stream-id bytes of an empty frame.
   mut     every single-point mutation (delete, duplicate, flip low bit, replace by 00 0a 0d 20 3a 80 ff,
-          truncate here + EOF, unmutated but cut here) of every byte of eight valid sessions (HTTP/1.1 keep-alive
+          truncate here + EOF, unmutated but cut here) of every byte of nine valid sessions (HTTP/1.1 keep-alive
           pair, chunked POST, h2c upgrade + second request, WebSocket over h1, HTTP/2 with two streams, WebSocket
-          over HTTP/2, and the two WebSocket sessions once more with Sec-WebSocket-Protocol / -Extensions token
+          over HTTP/2, the two WebSocket sessions once more with Sec-WebSocket-Protocol / -Extensions token
           lists in the handshake - over HTTP/2 in literal HPACK so that header bytes are mutated as such - and a
-          ping frame after the close frame), fed in one read and split at the mutation point; connection ended by
-          EOF (and, thorough, left to the idle timer).  Quick runs the full set on asyncio and a subset of the
-          operators on trio.
+          ping frame after the close frame, and plain HTTP/2 requests POST + GET in literal HPACK so that the bytes
+          of :method / :path / :scheme / :authority are mutated as such), fed in one read and split at the mutation
+          point; connection ended by EOF (and, thorough, left to the idle timer).  Quick runs the full set on
+          asyncio and a subset of the operators on trio.
+          Configuration axis: the mutations of four of the sessions (keep-alive pair, h2c, WebSocket over h1, literal
+          HTTP/2) again under server_names = [the host the sessions name] - the server then looks at the Host /
+          :authority bytes - and under server_names + h11_pass_raw_headers (quick: the four-operator subset, both
+          engines); the HTTP/1 reference then stops judging at a request whose Host names no configured server (404,
+          connection not reused).
+  h2cup   h2c upgrade requests: method {GET, OPTIONS *, HEAD, CONNECT, DELETE} x HTTP2-Settings payload (absent, empty,
+          valid, truncated, not base64, non-ASCII, 40 settings) x what follows (nothing, preface, preface + GET,
+          garbage) x one read / two, under the default configuration, under server_names naming the request's host and
+          under server_names naming another host (every request is then to be answered 404, none served).
   splice  prefix of session A up to a structural boundary (line / chunk / frame) followed by the suffix of
           session B from a structural boundary; every A, B (the first six sessions) and pair of boundaries; whole
           and split at the joint.
@@ -54,6 +64,13 @@ H2Protocol / stream classes on the virtual-time asyncio loop and on instrumented
           GOAWAY, unknown frame type, release of a gated application); quick: depth 3 on asyncio, 2 on trio;
           thorough: depth 4 with the full alphabet on both engines plus depth 5 with the core alphabet (28 operations:
           without padded DATA / padded and prioritised HEADERS / unknown frame on a stream / window size 1) on asyncio.
+  rto     the read_timeout axis (config.read_timeout = R set, every other family runs with the default None): every
+          prefix of the valid sessions of the corpus cut at a structural boundary, in the middle of an atom and after the
+          first byte - no byte at all, a partial request head / frame header, a partial body, a complete request or
+          WebSocket handshake followed by silence, the whole session - fed in one read and atom by atom, after which the
+          client stays SILENT (no EOF) while the clock jumps from armed deadline to armed deadline; R = 2 (shorter
+          than keep_alive_timeout = 5: the read deadline is what ends the connection, also with a request in
+          progress; thorough also R = 7, where an idle connection is ended by the idle timer first).
 
 Oracle clauses
   handler-exception / loop-exception-handler
@@ -80,6 +97,16 @@ Oracle clauses
         late: key = h2:data-after-response:<upload-blocked | no-response | status-N | partial | reset-N>; upload-blocked
         = the sibling's DATA never became sendable for a client that respects flow control.
         flood: stream-not-served key = h2:after-flood | h2:during-flood.
+  read-timeout-not-closed   (rto)
+        read_timeout is set, the client has gone silent with the server waiting for its bytes, and at final quiescence
+        (four clock jumps were on offer) the connection is still open: no deadline was armed, or firing it did not end
+        the connection.  key = <carrier>:<R>.
+  h2c-upgraded-request-unanswered / handler-never-terminates / unknown-server-name-served   (h2cup)
+        the server wrote the 101: from then on the upgrade request is HTTP/2 stream 1 and the handler "terminates or keeps
+        serving" - stream 1 gets a complete response or RST_STREAM, or the connection is ended (GOAWAY / close); after the
+        client's EOF, with no application still running, the connection is closed; with server_names naming another host no
+        application instance is started and stream 1 is not answered with a status below 400.
+        key = h2c:<configuration>:<method>.
   Once an execution has reported an internal error the not-closed clauses are not evaluated for it (the connection
   is already dead or stuck; one root cause, one report).
 """
@@ -99,13 +126,16 @@ from mc.harness import default_observation, describe, exc_site, generic_violatio
 from mc.x_c04_gen import (ANSWERED_AT_ONCE, APPS, CORPUS, H1_GET, H2_GET, SESSIONS, SPLICE_SESSIONS, ClientModel, boundaries,
                           case_events, grammar_enabled, grammar_events, grammar_roots, mutation_cases, session_bytes,
                           short_strings)
-from mc.x_c04_ref import (f_data, f_headers, f_ping, f_priority, f_rst, f_settings, f_winup, frame, h1_expect,
-                          h2_expect, h2_preamble, make_raw_client)
+from mc.x_c04_ref import (H2FrameView, f_data, f_headers, f_ping, f_priority, f_rst, f_settings, f_winup, frame,
+                          h1_expect, h2_expect, h2_preamble, make_raw_client)
 
 ID = "C04"
 LEVEL = "model_checking"
-TECHNIQUE = ("bounded exhaustive input enumeration (short strings, distance-1 mutations, structural splices, frame "
-             "floods in three feeds incl. interleaved with ordinary requests) plus stateless deviation-bounded "
+TECHNIQUE = ("bounded exhaustive input enumeration (short strings, distance-1 mutations - also under server_names / raw "
+             "header names -, h2c upgrade requests under server_names matching / not matching, structural splices, frame "
+             "floods in three feeds incl. interleaved with ordinary requests; with config.read_timeout set: every "
+             "structural / mid-atom prefix of the valid sessions followed by client silence under clock jumps) plus "
+             "stateless deviation-bounded "
              "exploration (HTTP-level oddities next to a sibling stream, bytes after the end of a WebSocket, uploads "
              "continuing after the response up to the connection window through a flow-control respecting h2 client) "
              "and explicit-state breadth-first search over an HTTP/2 frame grammar, all executing the real connection "
@@ -116,29 +146,48 @@ RULE = ("one evaluation = one execution of the real handler on one input (family
         "distinct by digest of (per-instance message sequences, parsed client view, handler result, close flags)")
 ASSUMPTIONS = [
     "environment model (fake transport/stream, virtual loop) is bound to real sockets by ./check selftest",
-    "'all byte strings' is decided for all strings up to the stated length, the distance-1 ball around eight valid "
+    "'all byte strings' is decided for all strings up to the stated length, the distance-1 ball around nine valid "
     "sessions, structural splices and all grammar words to the stated depth, not for arbitrary long input",
+    "configuration axis: server_names / h11_pass_raw_headers add nothing to what is demanded except that a request naming "
+    "no configured server is not served (documented: answered 404); the HTTP/1 reference does not judge what follows "
+    "such a request on the same connection",
     "a data event is delivered only while the server's transport still reads (as a socket would): bytes 'after the "
     "close' reach the asyncio worker either while it is still busy or inside a segment longer than one read",
     "malformedness of HTTP/1 input and its status hint are taken from a fresh h11 server connection, HTTP/2 "
     "connection errors from a fresh h2 server connection that never answers (used only as: reference error => the "
     "server must end the connection)",
     "scripted applications answer every complete request with 200 and a 3 byte body",
+    "rto: time passes only at quiescence (clock jumps to the next armed deadline); in these sessions the reader is "
+    "never parked inside the protocol at quiescence, so with read_timeout set a silent client is expected to be "
+    "disconnected by the read deadline or, where it comes first, the idle timer",
 ]
 BOUNDS_DOC = {
-    "quick": "short strings len<=3; mutations of 8 sessions: all on asyncio, 4 operators on trio; splices of 6 sessions "
+    "quick": "short strings len<=3; mutations of 9 sessions: all on asyncio, 4 operators on trio; 4 of them again under "
+             "server_names / server_names + raw headers (4 operators, both engines); 360 h2c upgrade requests x {default, "
+             "server_names matching, not matching}; splices of 6 sessions "
              "whole+split (trio whole); 12 floods of 1100 frames whole / reads of 64 / (the 4 PRIORITY floods) mixed "
              "with 1100 GETs; odd and wsafter (2 carriers x 4 closers x 4 late inputs, + one-segment-two-reads on "
              "ws/h1; 3 refusing applications x 4 late inputs, + one-segment-two-reads for the text frame): M<=1,S<=2; late (window 65535 in 16384 byte frames; shapes one, two; sibling before/after): "
-             "M<=1,S<=1; grammar BFS depth 3 on asyncio, 2 on trio",
+             "M<=1,S<=1; grammar BFS depth 3 on asyncio, 2 on trio; rto: read_timeout 2, every corpus session x every boundary / "
+             "mid-atom prefix x {one read, atom by atom} x 4 clock jumps, both engines",
     "thorough": "short strings len<=4 (asyncio; 3 on trio); all mutations on both engines with EOF and idle-timer "
-                "endings; splices; all floods in all three feeds; odd and wsafter (two-reads segment on both "
+                "endings (configuration axis: all operators); h2c upgrade requests as quick; splices; all floods in all three feeds; odd and wsafter (two-reads segment on both "
                 "carriers, refused handshakes with every late input in both feeds): M<=2,S<=3 (trio: M<=1,S<=3,R<=1); late (shapes one, one_end, two): M<=1,S<=2 (trio R<=1); "
-                "grammar BFS depth 4 (full alphabet, both engines) and depth 5 (core alphabet, asyncio)",
+                "grammar BFS depth 4 (full alphabet, both engines) and depth 5 (core alphabet, asyncio); rto: read_timeout "
+                "2 and 7, every byte offset of every corpus session as the cut",
 }
 BUDGET = {"quick": 300, "thorough": 1200}
 
 H1_CARRIERS = ("h1", "ws/h1", "h2c", "h2pk")
+# configuration axis (documented options that make the server look at more of the client's bytes)
+CFGS: Dict[str, dict] = {
+    "sn": {"server_names": ["hypercorn"]},  # the host every corpus session names
+    "raw+sn": {"server_names": ["hypercorn"], "h11_pass_raw_headers": True},
+    "snx": {"server_names": ["example.org"]},  # a host no session names: every request is to be answered 404
+}
+MUT_CFGS = ("sn", "raw+sn")
+CFG_SESSIONS = ("h1pair", "h2c", "wsh1", "h2lit")
+H2CUP_CFGS = ("", "sn", "snx")
 H2_TLS: Dict[str, Any] = {"carrier": "h2", "tls": True, "alpn": "h2"}
 
 # ---------------------------------------------------------------------------------------------
@@ -219,10 +268,21 @@ def scenarios(tier: str) -> List[Any]:
             size = len(session_bytes(name))
             for lo in range(0, size, MUT_POSITIONS):
                 out.append(("mut", engine, name, lo, min(size, lo + MUT_POSITIONS), tier))
+        # configuration axis: the mutations of four sessions again with server_names configured (the Host / :authority
+        # bytes are then looked at by the server) and with raw header names on top
+        for cfg in MUT_CFGS:
+            for name in CFG_SESSIONS:
+                size = len(session_bytes(name))
+                for lo in range(0, size, 2 * MUT_POSITIONS):
+                    out.append(("mut", engine, name, lo, min(size, lo + 2 * MUT_POSITIONS), tier, cfg))
         for a in SPLICE_SESSIONS:
             for b in SPLICE_SESSIONS:
                 out.append(("splice", engine, a, b, tier))
-        out.append(("h2cup", engine))
+        for cfg in H2CUP_CFGS:
+            out.append(("h2cup", engine) + ((cfg,) if cfg else ()))
+        for name in SESSIONS:
+            for rt in RTO_TIMEOUTS[tier]:
+                out.append(("rto", engine, name, rt, tier))
         for op in FLOODS:
             out.append(("flood", engine, op, FLOOD_N, tier))
         for odd in ODDITIES:
@@ -248,6 +308,8 @@ def scenarios(tier: str) -> List[Any]:
                 out.append(("gram", engine, depth, tuple(root), alphabet))
     return out
 
+
+RTO_TIMEOUTS = {"quick": (2,), "thorough": (2, 7)}  # keep_alive_timeout is 5 in every C04 scenario
 
 # (depth, alphabet) of the breadth-first searches; alphabets are defined in mc.x_c04_gen.grammar_kinds/enabled
 GRAMMAR = {
@@ -393,6 +455,12 @@ def judge_bytes(w: Any, conn: dict) -> List[dict]:
     out = generic_violations(w) + _internal(w, tag)
     rec = w.conns[0]
     segs, eof, ending = _fired_bytes(w)
+    if conn.get("rto") is not None and rec.closed_at is None and not any(v["clause"].startswith("handler-") for v in out):
+        # the client is silent, the server waits for its bytes, four jumps to the next armed deadline were on offer
+        ticks = [t for t, e in w.driver.fired if e[0] == "tick"]
+        out.append(V("read-timeout-not-closed", f"{tag}:{conn['rto']}",
+                     f"{sum(len(x) for x in segs)} bytes sent, then silence; clock jumps fired at {ticks}; now "
+                     f"{w.final_time}; handler={rec.handler} live tasks {getattr(w, 'live_tasks', None)}"))
     if conn.get("alpn") == "h2" or conn["carrier"] == "h2pk":  # h2pk: cleartext prior knowledge, same framing
         # mixed flood: the reference never answers, so the interleaved (complete, at once answered) requests would
         # pile up against its concurrency limit; it judges the flood frames alone
@@ -416,10 +484,11 @@ def judge_bytes(w: Any, conn: dict) -> List[dict]:
         return out
     if conn["carrier"] not in H1_CARRIERS:
         return out
-    verdict = h1_expect(segs, False)["verdict"]
+    names = conn.get("cfg", {}).get("server_names")
+    verdict = h1_expect(segs, False, server_names=names)["verdict"]
     by_eof = False
     if verdict[0] == "ok" and eof:
-        verdict = h1_expect(segs, True)["verdict"]
+        verdict = h1_expect(segs, True, server_names=names)["verdict"]
         by_eof = True
     if verdict[0] == "malformed":
         _, n, hint = verdict
@@ -460,14 +529,17 @@ def _result(w: Any, viol: List[dict], sample: dict) -> ExecResult:
     return ExecResult([], viol, digest(obs), bool(w.instances), w.sigs, sample)
 
 
-def run_bytes(engine: str, conn: dict, events: List[tuple], label: Any) -> ExecResult:
+def run_bytes(engine: str, conn: dict, events: List[tuple], label: Any, extra: Any = None) -> ExecResult:
     conn = _methods_for(conn, events)
     carrier = conn["carrier"]
     if carrier == "h2pk":  # prior knowledge over cleartext: the client parser is the HTTP/2 one from the start
         conn = {**conn, "carrier": "h2"}
     w = run_world(engine, _scenario(conn, [("client", events)]), [])
     conn = {**conn, "carrier": carrier}
-    return _result(w, judge_bytes(w, conn), {"case": repr(label)[:300]})
+    viol = judge_bytes(w, conn)
+    if extra is not None:
+        viol += extra(w, viol)
+    return _result(w, viol, {"case": repr(label)[:300]})
 
 
 # ---- the three enumerations of raw inputs
@@ -491,7 +563,10 @@ def short_case(params: tuple, s: bytes) -> Tuple[dict, List[tuple]]:
 def mut_case(params: tuple, case: tuple) -> Tuple[dict, List[tuple]]:
     name = params[2]
     pos, op, feed, ending = case
-    return dict(CORPUS[name][0]), case_events(session_bytes(name), pos, tuple(op), feed, ending)
+    conn = dict(CORPUS[name][0])
+    if len(params) > 6:
+        conn["cfg"] = CFGS[params[6]]
+    return conn, case_events(session_bytes(name), pos, tuple(op), feed, ending)
 
 
 def splice_cases(params: tuple) -> List[tuple]:
@@ -589,6 +664,43 @@ def h2cup_cases() -> List[tuple]:
     return [(m, st, t, seg) for m in H2CUP_METHODS for st in H2CUP_SETTINGS for t in H2CUP_TAILS for seg in ("whole", "split")]
 
 
+def judge_h2cup(params: tuple, case: tuple) -> Any:
+    """After the 101 the upgrade request is HTTP/2 stream 1: the handler 'terminates or keeps serving', i.e. that stream is
+    answered (or reset, or the connection ended with GOAWAY / close), and once the client has half-closed the handler
+    ends.  With server_names configured a request naming another host is answered 404 (documented), never served."""
+    m, st, tail, seg = case
+    cfg = params[2] if len(params) > 2 else ""
+
+    def judge(w: Any, sofar: List[dict]) -> List[dict]:
+        out: List[dict] = []
+        if any(v["clause"].startswith(("handler-", "loop-")) for v in sofar):
+            return out  # (one root cause, one report)
+        rec = w.conns[0]
+        h1 = rec.client.h1
+        if [r["status"] for r in h1.responses][:1] != [101]:
+            return out  # the offer was not taken: an HTTP/1.1 exchange, judged by the common clauses
+        view = H2FrameView()
+        view.feed(bytes(h1.after_switch), 0.0)
+        s1 = view.streams.get(1)
+        tag = f"h2c:{cfg or 'default'}:{m.split()[0].decode()}"
+        eof = any(e[0] == "eof" for _, e in w.driver.fired)
+        over = rec.closed_at is not None or view.goaway is not None
+        answered = s1 is not None and ((s1["status"] is not None and s1["ended"]) or s1["reset"] is not None)
+        if not answered and not over:
+            out.append(V("h2c-upgraded-request-unanswered", tag,
+                         f"101 sent, stream 1 {s1}, no GOAWAY, closed_at={rec.closed_at} handler={rec.handler} "
+                         f"after {bytes(h1.after_switch)[:60]!r}"))
+        elif eof and rec.closed_at is None and not any(i.outcome == "running" for i in w.instances):
+            out.append(V("handler-never-terminates", tag, f"client EOF fired, closed_at=None handler={rec.handler}"))
+        # (a request that is refused for another reason - 400 for a CONNECT without :protocol - is not served either)
+        if cfg == "snx" and (w.instances or (s1 is not None and s1["status"] is not None and s1["status"] < 400)):
+            out.append(V("unknown-server-name-served", tag, f"instances={[(i.type, i.scope.get('path')) for i in w.instances]} "
+                                                            f"stream 1 status {s1 and s1['status']}"))
+        return out
+
+    return judge
+
+
 def h2cup_case(params: tuple, case: tuple) -> Tuple[dict, List[tuple]]:
     m, st, tail, seg = case
     head = m + b" HTTP/1.1\r\nHost: hypercorn\r\nConnection: Upgrade, HTTP2-Settings\r\nUpgrade: h2c\r\n"
@@ -597,13 +709,44 @@ def h2cup_case(params: tuple, case: tuple) -> Tuple[dict, List[tuple]]:
     head += b"\r\n"
     follow = {"none": b"", "preface": h2_preamble(), "preface+get": h2_preamble() + H2_GET, "garbage": b"\x00\x01garbage\xff" * 3}[tail]
     data = [head + follow] if seg == "whole" else [head, follow]
-    return {"carrier": "h1", "upgrade": "h2c"}, [("data", 0, d) for d in data if d] + [("eof", 0)]
+    conn: dict = {"carrier": "h1", "upgrade": "h2c"}
+    if len(params) > 2:
+        conn["cfg"] = CFGS[params[2]]
+    return conn, [("data", 0, d) for d in data if d] + [("eof", 0)]
+
+
+def rto_cases(params: tuple) -> List[tuple]:
+    """(cut, feed): the client sends the first `cut` bytes of the session - in one read / atom by atom - and then
+    nothing.  Cuts: no byte, the first byte, every structural boundary, the middle of every atom, the whole session
+    (thorough: every offset)."""
+    _, engine, name, rt, tier = params
+    bs = boundaries(name)
+    if tier == "thorough":
+        cuts = list(range(bs[-1] + 1))
+    else:
+        cuts = sorted(set(bs) | {(a + b) // 2 for a, b in zip(bs, bs[1:])} | {1})
+    return [(c, f) for c in cuts for f in ("whole", "atoms") if not (f == "atoms" and c <= bs[1])]
+
+
+def rto_case(params: tuple, case: tuple) -> Tuple[dict, List[tuple]]:
+    _, engine, name, rt, tier = params
+    cut, feed = case
+    raw = session_bytes(name)[:cut]
+    if feed == "whole":
+        segs = [raw]
+    else:
+        bs = boundaries(name)
+        segs = [raw[a:b] for a, b in zip(bs, bs[1:]) if a < len(raw)]
+    conn = {**CORPUS[name][0], "cfg": {"read_timeout": rt}, "rto": rt}
+    return conn, [("data", 0, sg) for sg in segs if sg] + [("tick",)] * 4
 
 
 def _cases(params: tuple) -> Any:
     kind = params[0]
     if kind == "h2cup":
         return h2cup_cases()
+    if kind == "rto":
+        return rto_cases(params)
     if kind == "flood":
         # mixed: quick only for the floods that make the server remember new streams
         mixed = params[2] in FLOOD_IDS if params[4] == "quick" else True
@@ -611,7 +754,8 @@ def _cases(params: tuple) -> Any:
     if kind == "short":
         return short_strings(params[4])[params[5]:params[6]]
     if kind == "mut":
-        return mutation_cases(params[2], params[3], params[4], params[5], params[1])
+        # (configuration axis, quick tier: the four-operator subset on both engines)
+        return mutation_cases(params[2], params[3], params[4], params[5], params[1] if len(params) <= 6 else "trio")
     if kind == "splice":
         return splice_cases(params)
     raise ValueError(kind)
@@ -620,8 +764,9 @@ def _cases(params: tuple) -> Any:
 def _exec_case(params: tuple, case: Any) -> ExecResult:
     kind = params[0]
     conn, events = {"short": short_case, "mut": mut_case, "splice": splice_case, "flood": flood_case,
-                    "h2cup": h2cup_case}[kind](params, case)
-    return run_bytes(params[1], conn, events, (params[:3], case))
+                    "h2cup": h2cup_case, "rto": rto_case}[kind](params, case)
+    extra = judge_h2cup(params, case) if kind == "h2cup" else None
+    return run_bytes(params[1], conn, events, (params[:3], case), extra)
 
 
 # ---------------------------------------------------------------------------------------------
